@@ -11,16 +11,18 @@ import concurrent.futures
 import itertools
 import subprocess
 
+from gen.c01 import WIDE, variants
+
 RULE = ("a case is a HISTORY: the first config is installed with init_config in a fresh process, each "
         "further one with handle.set_config; after every step log::max_level(), Logger::max_log_level(), "
         "and - on a probe grid (every logger name of every config of the history, parents, children, "
-        "textual siblings, stray-colon targets, '' ; x all 5 levels) - log::logger().enabled, "
+        "textual siblings, spelling variants ('-'<->'_', case, '.'<->'::', spaces), stray-colon targets, '' ; x all 5 levels) - log::logger().enabled, "
         "log_enabled!(target:..) and the appenders reached by log!(target:..) are compared with the model. "
-        "Histories: every sequence of length <= 2 over a pool of 9 hand-made configs (verbose descendant "
+        "Histories: every sequence of length <= 2 over a pool of 11 hand-made configs (verbose descendant "
         "under quiet root with implied intermediate, the reverse, Off everywhere, max only in a depth-3 "
-        "leaf, max in a non-additive sibling without appenders, ...), every length-3 sequence over 6 of them "
-        "(over all 9 in thorough), then random histories of length <= 8 over random configs "
-        "(<= 7 loggers, depth <= 4, levels biased so that the maximum is often attained only by one deep "
+        "leaf, max in a non-additive sibling without appenders, my-app vs my_app, App vs app vs a.b, ...), every length-3 sequence over 6 of them "
+        "(over all 11 in thorough), then random histories of length <= 8 over random configs "
+        "(<= 7 loggers, depth <= 4, components also from '-', '_', '.', digits, case pairs, space, non-ASCII;  levels biased so that the maximum is often attained only by one deep "
         "descendant; consecutive configs often differ in one level only, going up or down). "
         "About a third of the steps change the root level of the BUILT Config through root_mut().set_level "
         "(the only post-build mutator of the public API; raised above / lowered below every logger, or random) "
@@ -53,6 +55,8 @@ POOL = {
     "max_in_mute_sibling": [A, [3, ["A"]], [["b", 5, 0, []], ["a", 2, 1, ["A"]]]],
     "root_is_max": [A, [4, ["A", "B"]], [["a", 2, 1, []], ["a::b", 3, 0, ["B"]], ["x::y::z", 1, 1, []]]],
     "all_trace": [A, [5, ["A"]], [["a", 5, 1, ["B"]], ["a::b", 5, 1, ["A"]]]],
+    "dash_vs_underscore": [A, [1, ["A"]], [["my-app", 5, 1, ["B"]], ["my_app::db", 3, 0, ["B"]], ["my_app", 0, 1, []]]],
+    "case_and_dot": [A, [0, ["A"]], [["App", 4, 1, ["B"]], ["app", 2, 1, []], ["a.b", 5, 0, ["A"]], ["x y::ñ", 3, 1, ["B"]]]],
     "error_only_child_first": [A, [0, []], [["a::b::c::d", 1, 1, ["A"]], ["a::b", 0, 1, ["B"]]]],
 }
 POOL_NAMES = list(POOL)
@@ -66,6 +70,7 @@ def probes_for(cfgs, extra=()):
             n = lg[0]
             comps = n.split("::")
             ts += [n, n + "::x", n + "x", n + ":"]
+            ts += variants(n)
             if len(comps) > 1:
                 ts.append("::".join(comps[:-1]))
     ts += STRAY
@@ -153,6 +158,9 @@ def rand_tweaks(rng, cfgs):
 
 def rand_cfg(rng):
     alpha = ["a", "b", "ab", "c"] + (["é", "日本"] if rng.chance(1, 5) else [])
+    if rng.chance(1, 2):
+        w = rng.choice(WIDE)
+        alpha += [w, rng.choice([v for v in variants(w) if v and ":" not in v] or WIDE), rng.choice(WIDE)]
     anames = rng.shuffle(["A0", "x", "日", "a::b"])[:rng.range(0, 3)]
     names = []
     tries = 0
